@@ -25,7 +25,8 @@ Theorem C11_wait_after_stop : forall v env s,
   (done (progs v env) s TW = true ->
    match v with
    | VSleep => m_exc (tw s) = true
-   | VGetSig | VGetSigTimed | VGetSigReader | VGetSigTimedReader | VGetSigPoll => m_exc (tw s) = true \/ m_sig (tw s) = true
+   | VGetSig | VGetSigTimed | VGetSigReader | VGetSigTimedReader | VGetSigPoll
+                   | VGetSigF | VGetSigTimedF | VGetSigReaderF | VGetSigTimedReaderF | VGetSigPollF => m_exc (tw s) = true \/ m_sig (tw s) = true
    | VLoop => m_fin (tw s) = true
    end).
 Proof.
@@ -63,7 +64,7 @@ Print Assumptions C11_locks_released.
 (* release needs neither the passage of time nor a signal: whenever the task thread and the
    stopper both have no enabled step, both have finished (with the signal thread absent) *)
 Definition has_reader (v : variant) : bool :=
-  match v with VGetSigReader | VGetSigTimedReader => true | _ => false end.
+  match v with VGetSigReader | VGetSigTimedReader | VGetSigReaderF | VGetSigTimedReaderF => true | _ => false end.
 
 Theorem C11_progress_without_time : forall v s,
   has_reader v = false ->
